@@ -858,7 +858,7 @@ func main() {
 		"to every atom (depth 1 exhaustive); depth 2 = PRNG sample of whole sibling groups (all 61 rules on one depth-1 term) out of the 60k-term exhaustive depth-2 set: quick >=1500 terms, thorough >=8000 plus 1500 depth-3 terms; n-ary partners drawn by PRNG; every term is built twice (pointer-disjoint twins). "+
 		"Direct oracle on ALL ordered pairs of the universe. Correspondence: blocks of 26 terms (a window of sibling terms, twins, random terms) -> 676 model pairs each, and Map histories over pools of 12 keys with forced hash collisions. "+
 		"A counted case is one ordered pair of a block (non-trivial: both terms have the same outermost constructor other than Basic/Named) or one Map history (non-trivial: at least one successful Delete and one overwriting Set)")
-	wd := vh.NewWatchdog(rep, 20*time.Second)
+	wd := vh.NewWatchdog(rep, 180*time.Second)
 	setupNamed()
 	h := typeutil.MakeHasher()
 	xl := &xlate{h: h, rep: rep}
